@@ -8,6 +8,23 @@ import (
 	"github.com/anthdm/hollywood/actor"
 )
 
+var errInvalidIndex = errors.New("envelope message index out of range")
+
+// validIndices reports whether the lookup table indices carried by msg are
+// within the tables of the envelope it arrived in.
+func validIndices(envelope *Envelope, msg *Message) bool {
+	if msg.TypeNameIndex < 0 || int(msg.TypeNameIndex) >= len(envelope.TypeNames) {
+		return false
+	}
+	if msg.TargetIndex < 0 || int(msg.TargetIndex) >= len(envelope.Targets) {
+		return false
+	}
+	if len(envelope.Senders) > 0 && (msg.SenderIndex < 0 || int(msg.SenderIndex) >= len(envelope.Senders)) {
+		return false
+	}
+	return true
+}
+
 type streamReader struct {
 	DRPCRemoteUnimplementedServer
 
@@ -36,6 +53,10 @@ func (r *streamReader) Receive(stream DRPCRemote_ReceiveStream) error {
 		}
 
 		for _, msg := range envelope.Messages {
+			if !validIndices(envelope, msg) {
+				slog.Error("streamReader receive", "err", errInvalidIndex)
+				return errInvalidIndex
+			}
 			tname := envelope.TypeNames[msg.TypeNameIndex]
 			payload, err := r.deserializer.Deserialize(msg.Data, tname)
 
